@@ -6,7 +6,8 @@
 From Coq Require Import List ZArith Bool.
 From RtoscV Require Import Match.PatSpec Match.MatchModel Ports.NameModel Ports.PathModel Ports.WalkModel
      Ports.WalkProofs Ports.WalkRegress Ports.DecProofs Ports.EnumProofs
-     Ports.DispatchModel Ports.DispatchProofs Ports.TreeProofs Ports.DispatchWalk.
+     Ports.DispatchModel Ports.DispatchProofs Ports.TreeProofs Ports.DispatchWalk
+     Ports.LookupGen Ports.NamesModel Ports.NamesOk.
 Import ListNotations.
 Local Open Scope Z_scope.
 
@@ -151,3 +152,39 @@ Theorem C09_dispatchable_nonvacuous :
   (exists out b, walk None (map render_port ex_d) [] = WOk out b /\
                  In ([0%nat; 0%nat], [47; 97; 49; 49; 47; 99; 49; 47; 120]) out /\ length out = 24%nat).
 Proof. exact ex_d_ok. Qed.
+
+(* The same with a DECIDABLE hypothesis in place of dok / table_disjoint:
+   names_ok root = true (coq/Ports/NamesModel.v; evaluated on every generated
+   tree by the tie): names of the macro shape, literal text without digits, and
+   the keys of the ports of every table - the path part with each '#N' replaced
+   by '#' - pairwise not prefixes of one another.  table_disjoint follows by
+   C05's soundness direction (whatever a name matches spells it, C05_no_spurious)
+   and the shape of an address (its digit runs collapsed to '#'). *)
+Theorem C09_dispatchable_names_ok : forall hp tid root id a ty o,
+  names_ok root = true -> tree_ok (to_tree hp tid root) ->
+  forall out b, walk None (map render_port root) [] = WOk out b ->
+  In (id, a) out -> leaf_admits root id ty ->
+  let t := to_tree hp tid root in
+  rev (log (dispatch t a ty true o)) = chain id t (strip a) ty o (Some [47]) /\
+  rev (log (dispatch t a ty false o)) = chain id t (strip a) ty o None /\
+  matches (dispatch t a ty true o) = 1 /\
+  leaf_count (chain id t (strip a) ty o (Some [47])) = 1 /\
+  length (chain id t (strip a) ty o (Some [47])) = length id.
+Proof. exact walk_dispatchable_names. Qed.
+
+Theorem C09_names_ok_sound : forall root, names_ok root = true ->
+  Forall sport_wf root /\ Forall dok root /\ table_disjoint root /\ Forall lok root /\ lookup_disjoint root.
+Proof. exact names_ok_sound. Qed.
+
+(* names_ok holds for { "xa", "xb#2/y#11:i", "c#12/" -> { "xa:T:F", "d" } } (siblings sharing
+   first characters), fails for { a#4b, a01b } and for { x, xy } *)
+Theorem C09_names_ok_nonvacuous :
+  names_ok ex_names = true /\
+  names_ok [SPort [Lit [97]; Enum 4; Lit [98]] [] None None;
+            SPort [Lit [97; 48; 49; 98]] [] None None] = false /\
+  names_ok [SPort [Lit [120]] [] None None;
+            SPort [Lit [120; 121]] [] None None] = false /\
+  (exists out b, walk None (map render_port ex_names) [] = WOk out b /\ length out = 47%nat /\
+                 In ([2%nat; 0%nat], [47; 99; 49; 49; 47; 120; 97]) out) /\
+  apropos (map render_port ex_names) [47; 99; 49; 49; 47; 120; 97] = AFound [2%nat; 0%nat].
+Proof. exact ex_names_ok. Qed.
